@@ -18,7 +18,8 @@ META = {
     "SandboxedEnvironment subclass intercepts exactly that subset; call_binop/call_unop log (operator, operands) and "
     "perturb the result (+1000 / +0.25 / +'!'), so an application that is folded at compile time or compiled to the "
     "native operator shows up as a missing log entry and a different output. Every arithmetic shape of depth <= 2 over "
-    "the 9 operators, filled with constants, variables and both mixtures, is placed in output, filter argument, macro "
+    "the 9 operators, filled with constants, variables and both mixtures, and every operator applied to every ordered pair "
+    "of a 10-element menu of literal dicts/lists/tuples/format strings/scalars, is placed in output, filter argument, macro "
     "default, loop filter, set and if-test position; the hook log (in evaluation order) and the rendered text must equal "
     "what the reference evaluator produces with the same hook; operators outside the subset must never be logged.",
     "note": "Environments come in two flavours (hook delegating to the stock operator tables / hook computing the result "
@@ -42,6 +43,25 @@ LEAF_VECS = {
     "vc": [G.Name("y"), G.Int(3), G.Name("x"), G.Int(0)],
 }
 DATA = [{"x": 5, "y": 2}, {"x": "ab", "y": 2}]
+# literal containers (and format strings) as operands: every binop on every ordered pair, every unop on every element
+LIT_MENU = [G.Str("%(n)s|%(m)s"), G.Str("%s"), G.Dict((G.Str("n"), G.Name("x")), (G.Str("m"), G.Int(2))),
+            G.Dict((G.Str("n"), G.Int(1)), (G.Str("m"), G.Int(2))), G.List(G.Int(1), G.Name("x")), G.List(G.Int(1), G.Int(2)),
+            G.Tuple(G.Int(2), G.Name("x")), G.Tuple(G.Int(1)), G.Int(2), G.Name("x")]
+
+
+def literal_operand_cases():
+    out = []
+    for op in BINOPS:
+        for l in LIT_MENU:
+            for r in LIT_MENU:
+                out.append(G.Bin(op, l, r))
+    for op in UNOPS:
+        for a in LIT_MENU:
+            out.append(G.Un(op, a))
+    return out
+
+
+LIT_CASES = literal_operand_cases()
 PLACEMENTS = ("output", "filterarg", "macrodefault", "loopfilter", "set", "iftest")
 
 
@@ -70,6 +90,10 @@ def perturb(r):
         return r + 0.25
     if isinstance(r, str):
         return r + "!"
+    if isinstance(r, list):
+        return r + ["!"]
+    if isinstance(r, tuple):
+        return r + ("!",)
     return r
 
 
@@ -287,6 +311,33 @@ def root_op(ast):
     return ast[1] if ast[0] in ("bin", "un") else ast[0]
 
 
+def run_case(p, classes, subset, ast, modes, routes, placements):
+    for mode in modes:
+        cls = classes[mode]
+        for placement in placements:
+            for route in routes:
+                for di in range(len(DATA)):
+                    bad = judge(cls, subset, ast, placement, di, p, route)
+                    if bad is None:
+                        continue
+                    # signature from the smallest sub-expression that still disagrees in the same placement
+                    small = ast
+                    while True:
+                        for _, child in G.subnodes(small):
+                            cb = judge(cls, subset, child, placement, di, None, route)
+                            if cb is not None and cb[0].split("/")[0] == bad[0].split("/")[0]:
+                                small, bad = child, cb
+                                break
+                        else:
+                            break
+                    kind, msg, tsrc = bad
+                    tag = ("" if mode == "stock" else "/tables-removed") + ("" if route == "source" else "/" + route)
+                    p.violation(f"C20/{kind}/{placement}/{root_op(small)}{tag}", {
+                        "msg": msg + f"  (found in {G.to_src(ast)!r})", "subset": sorted(subset), "template": tsrc,
+                        "data": DATA[di], "tables": mode, "route": route,
+                        "script": script_for(subset, tsrc, DATA[di], mode, route)})
+
+
 def shard(arg):
     quick, subset_idx, subset = arg
     warnings.filterwarnings("ignore", category=SyntaxWarning)
@@ -314,32 +365,17 @@ def shard(arg):
                 routes.append("foreign-ast")
             if rich and vname == "const":
                 routes.append("detached-ast")
-            for mode in modes:
-                cls = classes[mode]
-                for placement in ((PLACEMENTS[case % 6],) if quick else PLACEMENTS):
-                    for route in routes:
-                        for di in range(len(DATA)):
-                            bad = judge(cls, subset, ast, placement, di, p, route)
-                            if bad is None:
-                                continue
-                            # signature from the smallest sub-expression that still disagrees in the same placement
-                            small = ast
-                            while True:
-                                for _, child in G.subnodes(small):
-                                    cb = judge(cls, subset, child, placement, di, None, route)
-                                    if cb is not None and cb[0].split("/")[0] == bad[0].split("/")[0]:
-                                        small, bad = child, cb
-                                        break
-                                else:
-                                    break
-                            kind, msg, tsrc = bad
-                            tag = ("" if mode == "stock" else "/tables-removed") + ("" if route == "source" else "/" + route)
-                            p.violation(f"C20/{kind}/{placement}/{root_op(small)}{tag}", {
-                                "msg": msg + f"  (found in {G.to_src(ast)!r})", "subset": sorted(subset), "template": tsrc,
-                                "data": DATA[di], "tables": mode, "route": route,
-                                "script": script_for(subset, tsrc, DATA[di], mode, route)})
+            run_case(p, classes, subset, ast, modes, routes, (PLACEMENTS[case % 6],) if quick else PLACEMENTS)
             p.sample({"intercepted": sorted(subset), "expr": G.to_src(ast),
                       "template": template_for(PLACEMENTS[case % 6], G.to_src(ast))}, cap=1)
+    # literal containers as operands (one operator application each)
+    for j, ast in enumerate(LIT_CASES):
+        case += 1
+        rich = (not quick) and len(subset) in (0, 1, 2, 9)
+        modes = ("stock", "removed") if rich else (("stock", "removed")[case % 2],)
+        placements = PLACEMENTS if rich else ((PLACEMENTS[case % 6], PLACEMENTS[(case + 3) % 6]) if not quick else (PLACEMENTS[case % 6],))
+        run_case(p, classes, subset, ast, modes, ["source"], placements)
+        p.count("literal_operand_cases")
     p.count("subsets")
     return p
 
@@ -359,7 +395,7 @@ def run(ctx: core.Ctx):
     ctx.pmap(shard, [(ctx.quick, i, s) for i, s in enumerate(subs)])
     ctx.cov["bounds"] = {"subsets": len(subs), "subset_sizes": "0,1,2,9" if ctx.quick else "all 512",
                          "shapes": SPACE.count(), "leaf_vectors": list(LEAF_VECS), "data_assignments": len(DATA),
-                         "placements": list(PLACEMENTS), "placements_per_template": "1 (rotating)" if ctx.quick else "6",
+                         "placements": list(PLACEMENTS), "literal_operand_expressions": len(LIT_CASES), "placements_per_template": "1 (rotating)" if ctx.quick else "6",
                          "table_modes": "stock / intercepted entries removed, alternating over the cases"
                          + ("" if ctx.quick else "; both for subsets of size 0,1,2,9"),
                          "build_routes": "source; + AST parsed by a plain Environment for constant-leaf shapes"
